@@ -47,6 +47,14 @@ var vBanDocs = []vBanDoc{
 		files: map[string]string{"sub/i.jst": "TAG @only\n"},
 		kinds: []int{kJSIGHT, kGET, kResponse, kMACRO, kTYPE, kINCLUDE, kTAG},
 	},
+	{ // 3: MACRO, PASTE and a never-pasted macro body written in INCLUDEd files only
+		root: "JSIGHT 0.3\nGET /a\n  200 any\nINCLUDE sub/p.jst\nINCLUDE sub/m.jst\n",
+		files: map[string]string{
+			"sub/p.jst": "POST /b\n  PASTE @m\n",
+			"sub/m.jst": "MACRO @m\n(\n  404 any\n)\nMACRO @unused\n(\n  ENUM @e\n  [1]\n  SERVER @s\n    BaseUrl \"h\"\n)\n",
+		},
+		kinds: []int{kJSIGHT, kGET, kResponse, kINCLUDE, kPOST, kPASTE, kMACRO, kENUM, kSERVER, kBaseUrl},
+	},
 }
 
 func vBuildBanDoc(doc vBanDoc, oo ...Option) (*JApiCore, *jerr.JApiError) {
